@@ -21,7 +21,7 @@ LinkEdits == {"name", "mat_path", "mat_path_backslash", "prod_path", "mat_digest
               "env_fold", "byp_fold", "command_fold", "paths_fold"}
 \* expires_plus_year / _day: applied by the harness at every date class (mid-year, 29 Dec .. 3 Jan of
 \* several years, leap day, month ends) - "expiry to the second" must hold at every calendar position
-LayoutEdits == {"readme", "expires_plus1", "expires_minus1", "expires_plus_year", "expires_plus_day", "pubkeys_case", "step_name", "step_threshold", "step_threshold_zero",
+LayoutEdits == {"readme", "expires_plus1", "expires_minus1", "expires_plus_year", "expires_plus_day", "pubkeys_case", "step_name", "step_threshold", "step_threshold_zero", "step_threshold_one_to_zero", "match_empty_src", "match_empty_dst",
                 "pubkeys_add", "pubkeys_remove", "pubkeys_swap", "step_command", "rule_keyword", "rule_pattern", "rule_pattern_backslash",
                 "rule_add", "rule_remove", "rule_swap", "match_src", "match_dst", "match_drop_src", "match_with",
                 "match_from", "match_with_dstonly", "match_with_srconly", "match_with_bare", "insp_name", "insp_run", "insp_rule", "keys_add", "keys_remove",
